@@ -1,1 +1,2 @@
+pub mod builder;
 pub mod c08;
